@@ -61,7 +61,8 @@ def h_resolve_dynamic_tags(ctx):
 
 def h_normalize_merchant(ctx):
     """Both paths of normalize_merchant: the cached-engine path (match() raises nothing: harness `match`) and the legacy tuple loop
-    (re.error / ExpressionError caught inside the loop)."""
+    (what compiling / searching a user-written regular expression can raise - re.error, but also OverflowError for a repeat count
+    >= 2**32 and RecursionError for deeply nested groups - and ExpressionError are caught inside the loop)."""
     sp = Spec()
     exc_table(sp)
     I = Interp(ctx, sp)
@@ -72,7 +73,7 @@ def h_normalize_merchant(ctx):
     sp.models['extract_merchant_name'] = Func(lambda I_, a, k, n: I_.ctx.fresh('merchant_name', StrS))
     sp.models['_is_expression_pattern'] = Func(lambda I_, a, k, n: I_.ctx.fresh('is_expr', BoolS))
     sp.models['expr_parser.matches_transaction'] = Func(lambda I_, a, k, n: (only_expression_error(I_, 'matches_transaction'), I_.ctx.fresh('m', BoolS))[1])
-    sp.models['re.search'] = Func(lambda I_, a, k, n: (raise_any(I_, 're.search', ['re.error']), Obj(I_.fresh('mobj', ObjS)))[1])
+    sp.models['re.search'] = Func(lambda I_, a, k, n: (raise_any(I_, 're.search', ['re.error', 'OverflowError', 'RecursionError']), Obj(I_.fresh('mobj', ObjS)))[1])
     sp.globals['re.IGNORECASE'] = z3.IntVal(2)
     sp.models['check_all_conditions'] = Func(lambda I_, a, k, n: I_.ctx.fresh('conds', BoolS))   # pure comparisons on numbers/dates
     sp.models['_resolve_dynamic_tags'] = Func(lambda I_, a, k, n: SymSeq([I_.fresh('rtags', z3.SeqSort(StrS))]))
